@@ -29,11 +29,10 @@ def write_cfg(ctx, name, base, **subst):
         txt, n = re.subn(r"\b%s = (\{[^}]*\}|\S+)" % k, "%s = %s" % (k, v), txt)
         if n != 1:
             raise MachineryError("cfg %s: constant %s not found" % (base, k))
-    fn = "_c16_%s_%d.cfg" % (name, os.getpid())
-    path = os.path.join(HERE, "spec", fn)
+    path = os.path.join(ctx.workdir, "c16_%s.cfg" % name)       # scratch dir of this run, removed by ctx.finish
     with open(path, "w") as f:
         f.write(txt)
-    return fn
+    return path
 
 # ------------------------------------------------------------------------------------------------ replay
 def slicings(lay, n, rng, thorough):
@@ -50,8 +49,8 @@ def slicings(lay, n, rng, thorough):
                     if 0 < c + d < n:
                         pts.add(c + d)
                 c += len(b)
-            pts = set(rng.sample(sorted(pts), min(len(pts), 6 if not thorough else 60)))
-            for _ in range(2 if not thorough else 12):
+            pts = set(rng.sample(sorted(pts), min(len(pts), 5 if not thorough else 60)))
+            for _ in range(1 if not thorough else 12):
                 pts.add(rng.randrange(1, n))
             # the last bytes of every payload (end marker)
             c = 0
@@ -59,11 +58,11 @@ def slicings(lay, n, rng, thorough):
                 c += len(b)
                 if cls == "P":
                     for d in range(1, 8):
-                        if 0 < c - d < n and (thorough or rng.random() < 0.35):
+                        if 0 < c - d < n and (thorough or rng.random() < 0.25):
                             pts.add(c - d)
         for p in sorted(pts):
             out.append(("split2@%d" % p, [p]))
-        for j in range(2 if not thorough else 6):
+        for j in range(1 if not thorough else 6):
             ps = []; left = n
             while left > 0 and len(ps) < 40:
                 k = rng.choice((1, 1, 2, 3, 5, 8, 13)) if rng.random() < 0.7 else rng.randrange(1, left + 1)
@@ -498,11 +497,7 @@ def run(ctx):
             with concurrent.futures.ThreadPoolExecutor(4) as ex:
                 list(ex.map(lambda j: tl(*j), order))
     finally:
-        for c in cfgs:
-            try:
-                os.unlink(os.path.join(HERE, "spec", c))
-            except OSError:
-                pass
+        pass
     # (M)
     for name, module, cfg, w, to in jobs:
         r = res[name]
